@@ -43,6 +43,7 @@ type SpecEnv struct {
 	inOld    bool
 	ct       *FuncContract
 	depth    int
+	callSite int // > 0 while a callee's contract is evaluated at a call site
 }
 
 type specError struct{ msg string }
@@ -323,6 +324,11 @@ func (e *SpecEnv) ident(n *ast.Ident) (SV, types.Type) {
 		return Sc{TFalse}, tBool
 	case "nil":
 		return Sc{IntLit(0)}, types.Typ[types.UntypedNil]
+	}
+	if n.Name == "rangeindex" && e.fr != nil && e.fr.curLoop != nil && e.fr.curLoop.rangeAlloc != nil && !e.inOld {
+		if v, t, ok := e.localVar(e.fr.curLoop.rangeAlloc); ok {
+			return v, t
+		}
 	}
 	if e.useCells && !e.inOld && e.fr != nil {
 		if a, ok := e.fr.named[n.Name]; ok {
@@ -1048,8 +1054,14 @@ func (e *SpecEnv) callGo(fn *ssa.Function, recv *bound, args []ast.Expr) (SV, ty
 		fr = &Frame{fn: fn, depth: 0}
 	}
 	c.inSpec++
+	before := st.pc
 	res := c.callStatic(fr, st, fn, argv, nil, "spec")
 	c.inSpec--
+	// what the callee's contract (or body) told us about the result is a fact about fresh
+	// symbols: keep it
+	if st.pc.S != before.S {
+		c.vc.Assert(Implies(before, st.pc))
+	}
 	var rt types.Type
 	switch sig.Results().Len() {
 	case 0:
